@@ -111,6 +111,7 @@ type c05Case struct {
 	// Lose[h] = k >= 0: before the requests start, host h loses pooled connection k of its two and the
 	// replacement hangs in its handshake, so the host keeps exactly one usable connection (it is not "down")
 	Lose []int `json:"lose_conn,omitempty"`
+	Warn bool  `json:"backend_warns,omitempty"` // error answers carry a warning (header flag 0x08; the error code is not at offset 0)
 }
 
 type expAttempt struct {
@@ -296,6 +297,7 @@ func c05Check(c c05Case) *evid.Fail {
 	}
 	defer e.Close()
 	e.Cluster.UnpreparedAuto = false
+	e.Cluster.WarnOnUnprepared = c.Warn
 	r, err := newRunner(e, primitive.ProtocolVersion4, "")
 	if err != nil {
 		return evid.Failf("harness-client", "client: %v", err)
@@ -393,6 +395,7 @@ func c05Gen(rt *rapid.T) c05Case {
 	if c.Conns == 2 && rapid.IntRange(0, 3).Draw(rt, "haslose") == 0 {
 		c.Lose = rapid.SliceOfN(rapid.IntRange(-1, 1), c.Hosts, c.Hosts).Draw(rt, "lose")
 	}
+	c.Warn = rapid.IntRange(0, 3).Draw(rt, "warn") == 0
 	n := rapid.IntRange(1, 5).Draw(rt, "nreq")
 	for i := 0; i < n; i++ {
 		idem := rapid.Bool().Draw(rt, "idem")
